@@ -91,10 +91,15 @@ func genSortedCands(r *gen.Rand, data []byte, n int, allowEmpty, aligned bool) [
 
 // ---- newlines ----
 
+type nlDetail struct {
+	Data []byte   `json:"data"`
+	Offs []uint32 `json:"offs"`
+	Lns  []int    `json:"lns"`
+}
+
 func nlCase(w *gen.Writer, r *gen.Rand) {
 	data := genData(r)
 	locs := nlLocs(data)
-	n := index.VerifC03Newlines{Locs: locs, FileSize: uint32(len(data))}
 	var offs []uint32
 	for i := 0; i < 6; i++ {
 		offs = append(offs, uint32(r.Intn(len(data)+2)))
@@ -113,6 +118,13 @@ func nlCase(w *gen.Writer, r *gen.Rand) {
 	for i := 0; i < 8; i++ {
 		lns = append(lns, r.Range(-3, len(locs)+4))
 	}
+	nlRun(w, nlDetail{data, offs, lns}, "newlines")
+}
+
+func nlRun(w *gen.Writer, d nlDetail, class string) {
+	data, offs, lns := d.Data, d.Offs, d.Lns
+	locs := nlLocs(data)
+	n := index.VerifC03Newlines{Locs: locs, FileSize: uint32(len(data))}
 	var at, ls []int
 	var rl, gl []string
 	for _, o := range offs {
@@ -165,16 +177,29 @@ func nlCase(w *gen.Writer, r *gen.Rand) {
 		return strings.Join(x, ",")
 	}
 	impl := fmt.Sprintf("at=%s ls=%s rl=%s gl=%s", gen.NatList(at), gen.NatList(ls), join(rl), join(gl))
-	w.Emit(gen.Case{In: in, Impl: impl, Go: verdict, Key: key, Class: "newlines", Nontrivial: len(locs) >= 2})
+	w.Emit(gen.Case{In: in, Impl: impl, Go: verdict, Key: key, Class: class, Nontrivial: len(locs) >= 2, Detail: gen.Detail(struct {
+		Nl nlDetail `json:"nl"`
+	}{d})})
 }
 
 // ---- chunkCandidates ----
 
+type chunkDetail struct {
+	Data  []byte               `json:"data"`
+	Cands []index.VerifC02Cand `json:"cands"`
+	Ctx   int                  `json:"ctx"`
+}
+
 func chunkCase(w *gen.Writer, r *gen.Rand) {
 	data := genData(r)
-	locs := nlLocs(data)
 	cs := genSortedCands(r, data, r.Range(0, 8), true, false)
 	ctx := r.Intn(4)
+	chunkRun(w, chunkDetail{data, cs, ctx}, "chunkCandidates")
+}
+
+func chunkRun(w *gen.Writer, d chunkDetail, class string) {
+	data, cs, ctx := d.Data, d.Cands, d.Ctx
+	locs := nlLocs(data)
 	got := index.VerifC03ChunkCandidates(cs, index.VerifC03Newlines{Locs: locs, FileSize: uint32(len(data))}, ctx)
 	var parts []string
 	for _, c := range got {
@@ -189,7 +214,9 @@ func chunkCase(w *gen.Writer, r *gen.Rand) {
 		impl = strings.Join(parts, "|")
 	}
 	in := fmt.Sprintf("chunk %s %d %d %s", gen.NatList(locs), len(data), ctx, e2lib.ShowCands(toLib(cs)))
-	w.Emit(gen.Case{In: in, Impl: impl, Class: "chunkCandidates", Nontrivial: len(got) >= 2 && len(cs) > len(got)})
+	w.Emit(gen.Case{In: in, Impl: impl, Class: class, Nontrivial: len(got) >= 2 && len(cs) > len(got), Detail: gen.Detail(struct {
+		Chunk chunkDetail `json:"chunk"`
+	}{d})})
 }
 
 // ---- columnHelper ----
@@ -219,13 +246,25 @@ func colCase(w *gen.Writer, r *gen.Rand) {
 		}
 		qs = append(qs, [2]uint32{lo, uint32(pos)})
 	}
+	colRun(w, colDetail{data, qs}, "columnHelper")
+}
+
+type colDetail struct {
+	Data []byte      `json:"data"`
+	Qs   [][2]uint32 `json:"qs"`
+}
+
+func colRun(w *gen.Writer, d colDetail, class string) {
+	data, qs := d.Data, d.Qs
 	got := index.VerifC03Columns(data, qs)
 	var qss []string
 	for _, q := range qs {
 		qss = append(qss, fmt.Sprintf("%d.%d", q[0], q[1]))
 	}
 	in := fmt.Sprintf("col %s %s", gen.Hex(data), strings.Join(qss, ","))
-	w.Emit(gen.Case{In: in, Impl: gen.NatList(got), Class: "columnHelper", Nontrivial: len(qs) >= 3 && len(data) > utf8.RuneCount(data)})
+	w.Emit(gen.Case{In: in, Impl: gen.NatList(got), Class: class, Nontrivial: len(qs) >= 3 && len(data) > utf8.RuneCount(data), Detail: gen.Detail(struct {
+		Col colDetail `json:"col"`
+	}{d})})
 }
 
 // ---- fillMatches / fillChunkMatches on a real shard with synthetic candidates ----
@@ -323,6 +362,11 @@ func runEntry(w *gen.Writer, path string, class string) {
 	if err := json.Unmarshal(b, &e); err != nil {
 		panic(fmt.Sprintf("%s: %v", path, err))
 	}
+	var comp struct {
+		Nl    *nlDetail    `json:"nl"`
+		Chunk *chunkDetail `json:"chunk"`
+		Col   *colDetail   `json:"col"`
+	}
 	if e.Case != nil {
 		var c struct {
 			Detail json.RawMessage `json:"detail"`
@@ -331,13 +375,13 @@ func runEntry(w *gen.Writer, path string, class string) {
 			panic(err)
 		}
 		var ec e2lib.E2ECase
+		var fd fillDetail
 		if json.Unmarshal(c.Detail, &ec) == nil && ec.Q.Op != "" {
 			e.E2E = &ec
+		} else if json.Unmarshal(c.Detail, &fd) == nil && len(fd.Docs) > 0 {
+			e.Fill = &fd
 		} else {
-			var fd fillDetail
-			if json.Unmarshal(c.Detail, &fd) == nil && len(fd.Docs) > 0 {
-				e.Fill = &fd
-			}
+			json.Unmarshal(c.Detail, &comp)
 		}
 	}
 	switch {
@@ -350,6 +394,12 @@ func runEntry(w *gen.Writer, path string, class string) {
 		}
 		defer s.Close()
 		fillRun(w, s, *e.Fill, class)
+	case comp.Nl != nil:
+		nlRun(w, *comp.Nl, class)
+	case comp.Chunk != nil:
+		chunkRun(w, *comp.Chunk, class)
+	case comp.Col != nil:
+		colRun(w, *comp.Col, class)
 	default:
 		panic(path + ": nothing to run")
 	}
